@@ -1528,7 +1528,7 @@ class Pair(W):
                     ctx.check(ret.i == (1 if val_ok else 0), ctx.cur_key + "|return-value", {"ret": ret.i, "r-is-unity": unity})
         protos = [("pdpub", 3), ("lvpub", 2), ("pdprv", 4), ("lvprv", 3)]
         for name, ng in protos:
-            def run_once(t_kind=None, slot=0, rel=None, etamper=None):
+            def run_once(t_kind=None, slot=0, rel=None):
                 P, Q, ex = self.rand_pq()
                 if name == "pdpub":
                     ok = self.ok(R.call("cp_pdpub_gen", c, r1, u1, u2, v2, e)) and self.ok(R.call("cp_pdpub_ask", v1, w2, P, Q, c, r1, u1, u2, v2)) \
@@ -1548,12 +1548,9 @@ class Pair(W):
                     tamper(t_kind, slot)
                 if rel:
                     coset(*rel)
-                if etamper is not None:
-                    ep_ = (e if name.endswith("pub") else ea) + etamper * gs
-                    R.call("fp12_neg", ep_, ep_)
                 R.call("fp12_zero", rr)         # sentinel: a verifier that leaves r untouched is seen
                 ret = R.call("cp_%s_ver" % name, rr, g, c, e if name.endswith("pub") else ea)
-                judge(name, ret, t_kind is None and rel is None and etamper is None)
+                judge(name, ret, t_kind is None and rel is None)
             for _ in range(ctx.n(2, 10)):
                 self.case("cp_%s_ver|honest" % name, [cname], run_once)
             for slot in range(ng):
@@ -1573,9 +1570,7 @@ class Pair(W):
                 for it in range(2):
                     if self.mine():
                         self.case("cp_%s_ver|coset-g%d-g%d" % (name, rel[0], rel[1]), [cname, it], lambda: run_once(None, 0, rel))
-            for ei in range(1 if name.endswith("pub") else 2):
-                if self.mine():
-                    self.case("cp_%s_ver|precomputed-e%d,times-minus-one" % (name, ei), [cname], lambda: run_once(None, 0, None, ei))
+            # the precomputed e / e[i] are the client's own trusted values, not helper answers: not altered
 
     # ------------------------------------------------------------------ pairing on shared inputs
     def mpc_pairing(self, cname):
